@@ -1,6 +1,7 @@
-(* C08 -- proofs, part 1: the low-level model L (flags, candidate bits) processes one actual call exactly as the flag-free
-   reference semantics M does (call-level refinement), for arbitrary expectation sets without ignoreOtherParameters and
-   actual calls that do not pass a parameter name twice. *)
+(* C08 -- proofs, part 1: the low-level model L (flags, candidate bits, object flag, output buffers) processes one actual call
+   exactly as the flag-free reference semantics M does (call-level refinement), for arbitrary expectation sets without
+   ignoreOtherParameters whose functions are uniform in naming an object, and actual calls that pass no parameter name twice and
+   at most one object. *)
 From Coq Require Import ZArith NArith Bool List Lia.
 From CppUVerif Require Import lib.CInt lib.Str C08_Model.
 Import ListNotations.
@@ -45,12 +46,14 @@ Proof.
   - intros H x Hx. destruct (f x) eqn:E; [|reflexivity]. rewrite <- H. symmetry. apply existsb_exists. eauto.
   - intro H. destruct (existsb f l) eqn:E; [|reflexivity]. apply existsb_exists in E. destruct E as [x [Hx Hf]]. rewrite H in Hf; auto.
 Qed.
-
 Lemma cons_eq_inv {A} (a b : A) l m : a :: l = b :: m -> a = b /\ l = m.
 Proof. intro H. inversion H. auto. Qed.
+Lemma flat_map_app' {A B} (f : A -> list B) l m : flat_map f (l ++ m) = flat_map f l ++ flat_map f m.
+Proof. induction l; cbn; [reflexivity|]. rewrite IHl, app_assoc. reflexivity. Qed.
 
 (* ------------------------------------------------------------------ what the matching reads of an expectation *)
 Definition pl (e : expn) : list (name * pv) := map (fun p => (p_name p, p_val p)) (e_params e).
+Definition ol (e : expn) : list (name * list N) := map (fun q => (q_name q, q_bytes q)) (e_outs e).
 
 Lemma find_param_lookup n ps :
   lookup n (map (fun p => (p_name p, p_val p)) ps) = match find_param n ps with Some q => Some (p_val q) | None => None end.
@@ -60,156 +63,280 @@ Proof.
 Qed.
 Lemma has_input_pl n v e : has_input n v e = match lookup n (pl e) with Some w => veq w v | None => e_ign e end.
 Proof. unfold has_input, pl. rewrite find_param_lookup. destruct (find_param n (e_params e)); reflexivity. Qed.
-Lemma has_input_name_pl n e : has_input_name n e = existsb (fun q => fst q =? n) (pl e).
+Lemma has_input_name_pl n e : has_input_name n e = has_name n (pl e).
 Proof.
-  unfold has_input_name, find_param, pl. rewrite existsb_map. cbn. induction (e_params e) as [|p r IH]; cbn; [reflexivity|].
+  unfold has_input_name, find_param, pl, has_name. rewrite existsb_map. cbn. induction (e_params e) as [|p r IH]; cbn; [reflexivity|].
   destruct (p_name p =? n); [reflexivity|]. exact IH.
 Qed.
 Lemma has_input_noign n v e : e_ign e = false -> has_input n v e = has_pv (pl e) (n, v).
 Proof. intro H. rewrite has_input_pl. unfold has_pv. cbn. rewrite H. reflexivity. Qed.
+Lemma has_output_name_ol n e : has_output_name n e = has_name n (ol e).
+Proof.
+  unfold has_output_name, find_oparam, ol, has_name. rewrite existsb_map. cbn. induction (e_outs e) as [|p r IH]; cbn; [reflexivity|].
+  destruct (q_name p =? n); [reflexivity|]. exact IH.
+Qed.
+Lemma has_output_noign n e : e_ign e = false -> has_output n e = has_name n (ol e).
+Proof.
+  intro H. rewrite <- has_output_name_ol. unfold has_output, has_output_name. rewrite H. destruct (find_oparam n (e_outs e)); reflexivity.
+Qed.
+Lemma find_oparam_lookup n qs :
+  lookup_out n (map (fun q => (q_name q, q_bytes q)) qs) = match find_oparam n qs with Some q => q_bytes q | None => [] end.
+Proof.
+  unfold lookup_out, find_oparam. induction qs as [|p r IH]; cbn; [reflexivity|].
+  destruct (q_name p =? n); [reflexivity|]. exact IH.
+Qed.
 
 (* the part of an expectation the operations of one call never change *)
-Definition stat (e : expn) := (e_name e, pl e, e_ign e, (e_lo e, e_hi e, e_ooo e), e_ret e, (e_act e, e_exp e)).
-Lemma pl_set_flags e (g : param -> param) :
-  (forall p, p_name (g p) = p_name p /\ p_val (g p) = p_val p) -> pl (set_params e (map g (e_params e))) = pl e.
-Proof. intro H. unfold pl. cbn. rewrite map_map. apply map_ext. intro p. destruct (H p) as [A B]. rewrite A, B. reflexivity. Qed.
+Definition stat (e : expn) := (e_name e, pl e, ol e, e_ign e, (e_lo e, e_hi e, e_ooo e), e_ret e, e_obj e, (e_act e, e_exp e)).
+Lemma pl_reset e : pl (reset_e e) = pl e.
+Proof. unfold pl, reset_e. cbn. rewrite map_map. reflexivity. Qed.
+Lemma ol_reset e : ol (reset_e e) = ol e.
+Proof. unfold ol, reset_e. cbn. rewrite map_map. reflexivity. Qed.
 Lemma stat_reset e : stat (reset_e e) = stat e.
-Proof. unfold stat, reset_e. cbn. f_equal. f_equal. f_equal. f_equal. f_equal. apply (pl_set_flags e (fun p => set_flag p false)). intro p. split; reflexivity. Qed.
+Proof. unfold stat. rewrite pl_reset, ol_reset. reflexivity. Qed.
+Lemma pl_mark n e : pl (mark n e) = pl e.
+Proof. unfold pl, mark. cbn. rewrite map_map. apply map_ext. intro p. destruct (p_name p =? n); reflexivity. Qed.
+Lemma ol_mark_out n e : ol (mark_out n e) = ol e.
+Proof. unfold ol, mark_out. cbn. rewrite map_map. apply map_ext. intro p. destruct (q_name p =? n); reflexivity. Qed.
 Lemma stat_mark n e : stat (mark n e) = stat e.
-Proof.
-  unfold stat, mark. cbn. f_equal. f_equal. f_equal. f_equal. f_equal.
-  apply (pl_set_flags e (fun p => if p_name p =? n then set_flag p true else p)). intro p. destruct (p_name p =? n); split; reflexivity.
-Qed.
+Proof. unfold stat. rewrite pl_mark. reflexivity. Qed.
+Lemma stat_mark_out n e : stat (mark_out n e) = stat e.
+Proof. unfold stat. rewrite ol_mark_out. reflexivity. Qed.
 Lemma stat_set_pot e b : stat (set_pot e b) = stat e. Proof. reflexivity. Qed.
 Lemma stat_set_cur e b : stat (set_cur e b) = stat e. Proof. reflexivity. Qed.
 Lemma stat_set_fin e b : stat (set_fin e b) = stat e. Proof. reflexivity. Qed.
+Lemma stat_set_pobj e b : stat (set_pobj e b) = stat e. Proof. reflexivity. Qed.
 
-Definition can_match_s (s : N * N) := fst s <? snd s.
 Lemma stat_name e e' : stat e = stat e' -> e_name e = e_name e'. Proof. unfold stat. intro H. inversion H. reflexivity. Qed.
 Lemma stat_pl e e' : stat e = stat e' -> pl e = pl e'. Proof. unfold stat. intro H. inversion H. reflexivity. Qed.
+Lemma stat_ol e e' : stat e = stat e' -> ol e = ol e'. Proof. unfold stat. intro H. inversion H. reflexivity. Qed.
 Lemma stat_ign e e' : stat e = stat e' -> e_ign e = e_ign e'. Proof. unfold stat. intro H. inversion H. reflexivity. Qed.
 Lemma stat_cnt e e' : stat e = stat e' -> e_act e = e_act e' /\ e_exp e = e_exp e'. Proof. unfold stat. intro H. inversion H. auto. Qed.
 Lemma stat_ret e e' : stat e = stat e' -> e_ret e = e_ret e'. Proof. unfold stat. intro H. inversion H. reflexivity. Qed.
+Lemma stat_obj e e' : stat e = stat e' -> e_obj e = e_obj e'. Proof. unfold stat. intro H. inversion H. reflexivity. Qed.
 Lemma stat_ord e e' : stat e = stat e' -> e_lo e = e_lo e' /\ e_hi e = e_hi e' /\ e_ooo e = e_ooo e'. Proof. unfold stat. intro H. inversion H. auto. Qed.
 
 Lemma stat_has_input n v e e' : stat e = stat e' -> has_input n v e = has_input n v e'.
 Proof. intro H. rewrite !has_input_pl. rewrite (stat_pl _ _ H), (stat_ign _ _ H). reflexivity. Qed.
+Lemma has_output_ol n e : has_output n e = (has_name n (ol e) || e_ign e).
+Proof.
+  rewrite <- has_output_name_ol. unfold has_output, has_output_name. destruct (find_oparam n (e_outs e)); reflexivity.
+Qed.
+Lemma stat_has_output n e e' : stat e = stat e' -> has_output n e = has_output n e'.
+Proof. intro H. rewrite !has_output_ol, (stat_ol _ _ H), (stat_ign _ _ H). reflexivity. Qed.
+Lemma stat_relates_obj a e e' : stat e = stat e' -> relates_obj a e = relates_obj a e'.
+Proof. intro H. unfold relates_obj. rewrite (stat_obj _ _ H). reflexivity. Qed.
+Lemma stat_specific e e' : stat e = stat e' -> specific e = specific e'.
+Proof. intro H. unfold specific. rewrite (stat_obj _ _ H). reflexivity. Qed.
 Lemma stat_can_match e e' : stat e = stat e' -> can_match e = can_match e'.
 Proof. intro H. unfold can_match. destruct (stat_cnt _ _ H) as [A B]. rewrite A, B. reflexivity. Qed.
 Lemma stat_relates f e e' : stat e = stat e' -> relates f e = relates f e'.
 Proof. intro H. unfold relates. rewrite (stat_name _ _ H). reflexivity. Qed.
+Lemma stat_has_input_name n e e' : stat e = stat e' -> has_input_name n e = has_input_name n e'.
+Proof. intro H. rewrite !has_input_name_pl, (stat_pl _ _ H). reflexivity. Qed.
+Lemma stat_has_output_name n e e' : stat e = stat e' -> has_output_name n e = has_output_name n e'.
+Proof. intro H. rewrite !has_output_name_ol, (stat_ol _ _ H). reflexivity. Qed.
 
-(* ------------------------------------------------------------------ static predicates of a call (f, P) on an expectation *)
-Definition agreesL (P : list (name * pv)) (e : expn) : bool := forallb (fun x => has_input (fst x) (snd x) e) P.
-Definition passed (P : list (name * pv)) (n : name) : bool := existsb (fun x => fst x =? n) P.
-Definition coveredL (P : list (name * pv)) (e : expn) : bool := forallb (fun q => passed P (fst q)) (pl e).
-Definition liveL (f : name) (P : list (name * pv)) (e : expn) : bool := can_match e && relates f e && agreesL P e.
-Definition flags_ok (P : list (name * pv)) (e : expn) : bool :=
-  forallb (fun q => Bool.eqb (p_flag q) (passed P (p_name q))) (e_params e).
+(* ------------------------------------------------------------------ static predicates of a call (f, P) on an expectation;
+   P = the items passed so far *)
+Definition acceptsL (it : item) (e : expn) : bool :=
+  match it with IIn n v => has_input n v e | IOut n _ => has_output n e | IObj a => relates_obj a e end.
+Definition agreesL (P : list item) (e : expn) : bool := forallb (fun it => acceptsL it e) P.
+Definition passed_in (P : list item) (n : name) : bool := existsb (N.eqb n) (in_names P).
+Definition passed_out (P : list item) (n : name) : bool := existsb (N.eqb n) (out_names P).
+Definition passed_obj (P : list item) : bool := negb (match objs_of P with [] => true | _ => false end).
+Definition pcoveredL (P : list item) (e : expn) : bool :=
+  forallb (fun q => passed_in P (fst q)) (pl e) && forallb (fun q => passed_out P (fst q)) (ol e).
+Definition coveredL (P : list item) (e : expn) : bool := pcoveredL P e && (negb (specific e) || passed_obj P).
+Definition liveL (f : name) (P : list item) (e : expn) : bool := can_match e && relates f e && agreesL P e.
+Definition flags_ok (P : list item) (e : expn) : bool :=
+  forallb (fun q => Bool.eqb (p_flag q) (passed_in P (p_name q))) (e_params e) &&
+  forallb (fun q => Bool.eqb (q_flag q) (passed_out P (q_name q))) (e_outs e) &&
+  Bool.eqb (e_pobj e) (negb (specific e) || passed_obj P).
+(* the item was not passed before *)
+Definition fresh (P : list item) (it : item) : bool :=
+  match it with IIn n _ => negb (passed_in P n) | IOut n _ => negb (passed_out P n) | IObj _ => negb (passed_obj P) end.
 
+Lemma stat_accepts it e e' : stat e = stat e' -> acceptsL it e = acceptsL it e'.
+Proof. intro H. destruct it; cbn; [apply stat_has_input | apply stat_has_output | apply stat_relates_obj]; exact H. Qed.
 Lemma stat_agrees P e e' : stat e = stat e' -> agreesL P e = agreesL P e'.
-Proof. intro H. unfold agreesL. apply forallb_ext'. intros x _. apply stat_has_input. exact H. Qed.
+Proof. intro H. unfold agreesL. apply forallb_ext'. intros x _. apply stat_accepts. exact H. Qed.
+Lemma stat_pcovered P e e' : stat e = stat e' -> pcoveredL P e = pcoveredL P e'.
+Proof. intro H. unfold pcoveredL. rewrite (stat_pl _ _ H), (stat_ol _ _ H). reflexivity. Qed.
 Lemma stat_covered P e e' : stat e = stat e' -> coveredL P e = coveredL P e'.
-Proof. intro H. unfold coveredL. rewrite (stat_pl _ _ H). reflexivity. Qed.
+Proof. intro H. unfold coveredL. rewrite (stat_pcovered _ _ _ H), (stat_specific _ _ H). reflexivity. Qed.
 Lemma stat_live f P e e' : stat e = stat e' -> liveL f P e = liveL f P e'.
 Proof. intro H. unfold liveL. rewrite (stat_can_match _ _ H), (stat_relates f _ _ H), (stat_agrees P _ _ H). reflexivity. Qed.
 
-Lemma flags_covered P e : flags_ok P e = true -> params_matching e = coveredL P e.
+Lemma flags_pcovered P e : flags_ok P e = true -> params_matching e = pcoveredL P e.
 Proof.
-  unfold flags_ok, params_matching, coveredL, pl. rewrite forallb_map. cbn.
-  induction (e_params e) as [|q r IH]; cbn; [reflexivity|]. intro H. apply andb_true_iff in H. destruct H as [H1 H2].
-  apply eqb_prop in H1. rewrite H1. rewrite IH by exact H2. reflexivity.
+  unfold flags_ok, params_matching, pcoveredL, pl, ol. rewrite !forallb_map. cbn. intro H.
+  apply andb_true_iff in H. destruct H as [H H3]. apply andb_true_iff in H. destruct H as [H1 H2]. f_equal.
+  - clear H2 H3. induction (e_params e) as [|q r IH]; cbn in *; [reflexivity|]. apply andb_true_iff in H1. destruct H1 as [A B].
+    apply eqb_prop in A. rewrite A, (IH B). reflexivity.
+  - clear H1 H3. induction (e_outs e) as [|q r IH]; cbn in *; [reflexivity|]. apply andb_true_iff in H2. destruct H2 as [A B].
+    apply eqb_prop in A. rewrite A, (IH B). reflexivity.
 Qed.
+Lemma flags_covered P e : flags_ok P e = true -> is_matching e = coveredL P e.
+Proof.
+  intro H. unfold is_matching, coveredL. rewrite (flags_pcovered P e H). f_equal.
+  unfold flags_ok in H. apply andb_true_iff in H. destruct H as [_ H]. apply eqb_prop in H. exact H.
+Qed.
+Lemma is_matching_fin_ok P e : e_ign e = false -> flags_ok P e = true -> is_matching_fin e = coveredL P e.
+Proof. intros Hi Hf. unfold is_matching_fin. rewrite (flags_covered P e Hf), Hi. cbn. apply andb_true_r. Qed.
 
 Lemma agrees_app P Q e : agreesL (P ++ Q) e = agreesL P e && agreesL Q e.
 Proof. unfold agreesL. apply forallb_app. Qed.
-Lemma passed_app P Q n : passed (P ++ Q) n = passed P n || passed Q n.
-Proof. unfold passed. apply existsb_app. Qed.
+Lemma in_names_app P Q : in_names (P ++ Q) = in_names P ++ in_names Q. Proof. apply flat_map_app'. Qed.
+Lemma out_names_app P Q : out_names (P ++ Q) = out_names P ++ out_names Q. Proof. apply flat_map_app'. Qed.
+Lemma objs_of_app P Q : objs_of (P ++ Q) = objs_of P ++ objs_of Q. Proof. apply flat_map_app'. Qed.
+Lemma passed_in_app P Q n : passed_in (P ++ Q) n = passed_in P n || passed_in Q n.
+Proof. unfold passed_in. rewrite in_names_app. apply existsb_app. Qed.
+Lemma passed_out_app P Q n : passed_out (P ++ Q) n = passed_out P n || passed_out Q n.
+Proof. unfold passed_out. rewrite out_names_app. apply existsb_app. Qed.
+Lemma passed_obj_app P Q : passed_obj (P ++ Q) = passed_obj P || passed_obj Q.
+Proof. unfold passed_obj. rewrite objs_of_app. destruct (objs_of P), (objs_of Q); reflexivity. Qed.
+Lemma live_snoc f P it e : liveL f (P ++ [it]) e = liveL f P e && acceptsL it e.
+Proof. unfold liveL. rewrite agrees_app. unfold agreesL at 2. cbn. rewrite andb_true_r. rewrite !andb_assoc. reflexivity. Qed.
 
-(* an expectation whose parameters were all passed already has no parameter named n when n was not passed yet *)
-Lemma covered_lacks P e n v :
-  coveredL P e = true -> passed P n = false -> e_ign e = false -> has_input n v e = false.
+(* an expectation all of whose parameters were passed has no room for an input / output parameter not passed yet *)
+Lemma covered_lacks_in P e n v :
+  pcoveredL P e = true -> passed_in P n = false -> e_ign e = false -> has_input n v e = false.
 Proof.
   intros Hc Hn Hi. rewrite has_input_pl, Hi. unfold lookup.
   destruct (find (fun x => fst x =? n) (pl e)) as [x|] eqn:E; [|reflexivity].
   apply find_some in E. destruct E as [Hin Hx]. apply N.eqb_eq in Hx.
-  unfold coveredL in Hc. rewrite forallb_forall in Hc. specialize (Hc x Hin). change (passed P (fst x) = true) in Hc. rewrite Hx in Hc. congruence.
+  unfold pcoveredL in Hc. apply andb_true_iff in Hc. destruct Hc as [Hc _]. rewrite forallb_forall in Hc. specialize (Hc x Hin).
+  change (passed_in P (fst x) = true) in Hc. rewrite Hx in Hc. congruence.
+Qed.
+Lemma covered_lacks_out P e n :
+  pcoveredL P e = true -> passed_out P n = false -> e_ign e = false -> has_output n e = false.
+Proof.
+  intros Hc Hn Hi. rewrite has_output_ol, Hi, orb_false_r. unfold has_name. apply existsb_false. intros x Hin.
+  destruct (fst x =? n) eqn:Hx; [|reflexivity]. apply N.eqb_eq in Hx.
+  unfold pcoveredL in Hc. apply andb_true_iff in Hc. destruct Hc as [_ Hc]. rewrite forallb_forall in Hc. specialize (Hc x Hin).
+  change (passed_out P (fst x) = true) in Hc. rewrite Hx in Hc. congruence.
 Qed.
 
 (* ------------------------------------------------------------------ invariant of one expectation during a call (f, P):
-   P = the parameters passed so far.  Candidates and the current match are exactly the expectations alive for (f, P); their
-   flags say which of their parameters were passed; nothing is finalized. *)
-Definition okE (f : name) (P : list (name * pv)) (e : expn) : Prop :=
+   Candidates and the current match are exactly the expectations alive for (f, P); their flags say which of their parameters
+   (and whether the object) were passed; nothing is finalized. *)
+Definition okE (f : name) (P : list item) (e : expn) : Prop :=
   e_ign e = false /\
   (e_pot e = true -> e_cur e = false /\ liveL f P e = true /\ flags_ok P e = true /\ e_fin e = false) /\
   (e_cur e = true -> liveL f P e = true /\ flags_ok P e = true /\ e_fin e = false /\ coveredL P e = true) /\
   (liveL f P e = true -> e_pot e || e_cur e = true).
 
-(* checkInputParameter on one expectation: discard, the two pruning passes, then the marking pass *)
-Definition stepE (n : name) (v : pv) (e : expn) : expn :=
+Definition is_param (it : item) : bool := match it with IObj _ => false | _ => true end.
+Definition markL (it : item) (e : expn) : expn :=
+  match it with IIn n _ => mark n e | IOut n _ => mark_out n e | IObj _ => pass_obj e end.
+(* checkInputParameter / checkOutputParameter on one expectation: discard, the two pruning passes, then the marking pass *)
+Definition stepE (it : item) (e : expn) : expn :=
   let e1 := if e_cur e then set_cur (reset_e e) false else e in
   let e2 := if e_pot e1 && is_matching_fin e1 then drop (reset_e e1) else e1 in
-  if e_pot e2 && negb (has_input n v e2) then drop e2 else e2.
-Definition markE (n : name) (e : expn) : expn := if e_pot e then mark n e else e.
+  if e_pot e2 && negb (acceptsL it e2) then drop e2 else e2.
+Definition markE (it : item) (e : expn) : expn := if e_pot e then markL it e else e.
 
-Lemma step_list n v es : keep_if (has_input n v) (discard es) = map (stepE n v) es.
+Lemma step_list it es : keep_if (acceptsL it) (discard es) = map (stepE it) es.
 Proof. unfold keep_if, discard, only_keep_unmatching, for_cur. rewrite !map_map. apply map_ext. intro e. reflexivity. Qed.
-Lemma mark_list n es : for_pot (mark n) es = map (markE n) es.
+Lemma mark_list it es : for_pot (markL it) es = map (markE it) es.
 Proof. reflexivity. Qed.
 
-Lemma live_snoc f P n v e : liveL f (P ++ [(n, v)]) e = liveL f P e && has_input n v e.
-Proof. unfold liveL. rewrite agrees_app. unfold agreesL at 2. cbn. rewrite andb_true_r. rewrite !andb_assoc. reflexivity. Qed.
+Lemma stat_markL it e : stat (markL it e) = stat e.
+Proof. destruct it; cbn; [apply stat_mark | apply stat_mark_out | reflexivity]. Qed.
+Lemma stat_markE it e : stat (markE it e) = stat e.
+Proof. unfold markE. destruct (e_pot e); [apply stat_markL|reflexivity]. Qed.
 
-Lemma flags_ok_mark P n v e : flags_ok P e = true -> flags_ok (P ++ [(n, v)]) (mark n e) = true.
+Lemma specific_mark n e : specific (mark n e) = specific e. Proof. reflexivity. Qed.
+Lemma specific_mark_out n e : specific (mark_out n e) = specific e. Proof. reflexivity. Qed.
+
+Lemma flags_ok_markL P it e : flags_ok P e = true -> flags_ok (P ++ [it]) (markL it e) = true.
 Proof.
-  unfold flags_ok, mark. cbn. rewrite forallb_map. intro H. rewrite forallb_forall in *. intros q Hq. specialize (H q Hq).
-  apply eqb_prop in H. rewrite passed_app. unfold passed at 2. cbn. rewrite orb_false_r.
-  destruct (p_name q =? n) eqn:E; cbn.
-  - rewrite N.eqb_sym, E. rewrite orb_true_r. reflexivity.
-  - rewrite H. rewrite N.eqb_sym, E. rewrite orb_false_r. apply eqb_reflx.
+  unfold flags_ok. intro H. apply andb_true_iff in H. destruct H as [H H3]. apply andb_true_iff in H. destruct H as [H1 H2].
+  apply eqb_prop in H3. rewrite forallb_forall in H1, H2.
+  destruct it as [n v|n buf|a]; cbn [markL].
+  - unfold mark. cbn [e_params e_outs e_pobj set_params]. change (specific (set_params e _)) with (specific e).
+    rewrite passed_obj_app. change (passed_obj [IIn n v]) with false. rewrite orb_false_r, H3, eqb_reflx, andb_true_r.
+    apply andb_true_iff. split.
+    + rewrite forallb_map. apply forallb_forall. intros q Hq. specialize (H1 q Hq). apply eqb_prop in H1.
+      rewrite passed_in_app. change (passed_in [IIn n v] ?m) with (N.eqb m n || false). rewrite orb_false_r.
+      destruct (p_name q =? n) eqn:E; cbn.
+      * rewrite E, orb_true_r. reflexivity.
+      * rewrite H1, E, orb_false_r. apply eqb_reflx.
+    + apply forallb_forall. intros q Hq. specialize (H2 q Hq). apply eqb_prop in H2. rewrite passed_out_app, H2.
+      change (passed_out [IIn n v] (q_name q)) with false. rewrite orb_false_r. apply eqb_reflx.
+  - unfold mark_out. cbn [e_params e_outs e_pobj set_outs]. change (specific (set_outs e _)) with (specific e).
+    rewrite passed_obj_app. change (passed_obj [IOut n buf]) with false. rewrite orb_false_r, H3, eqb_reflx, andb_true_r.
+    apply andb_true_iff. split.
+    + apply forallb_forall. intros q Hq. specialize (H1 q Hq). apply eqb_prop in H1. rewrite passed_in_app, H1.
+      change (passed_in [IOut n buf] (p_name q)) with false. rewrite orb_false_r. apply eqb_reflx.
+    + rewrite forallb_map. apply forallb_forall. intros q Hq. specialize (H2 q Hq). apply eqb_prop in H2.
+      rewrite passed_out_app. change (passed_out [IOut n buf] ?m) with (N.eqb m n || false). rewrite orb_false_r.
+      destruct (q_name q =? n) eqn:E; cbn.
+      * rewrite E, orb_true_r. reflexivity.
+      * rewrite H2, E, orb_false_r. apply eqb_reflx.
+  - unfold pass_obj. cbn [e_params e_outs e_pobj set_pobj]. change (specific (set_pobj e true)) with (specific e).
+    rewrite passed_obj_app. change (passed_obj [IObj a]) with true. rewrite orb_true_r, orb_true_r. cbn [Bool.eqb]. rewrite andb_true_r.
+    apply andb_true_iff. split.
+    + apply forallb_forall. intros q Hq. specialize (H1 q Hq). apply eqb_prop in H1. rewrite passed_in_app, H1.
+      change (passed_in [IObj a] (p_name q)) with false. rewrite orb_false_r. apply eqb_reflx.
+    + apply forallb_forall. intros q Hq. specialize (H2 q Hq). apply eqb_prop in H2. rewrite passed_out_app, H2.
+      change (passed_out [IObj a] (q_name q)) with false. rewrite orb_false_r. apply eqb_reflx.
 Qed.
 
-Lemma is_matching_fin_ok P e : e_ign e = false -> flags_ok P e = true -> is_matching_fin e = coveredL P e.
-Proof. intros Hi Hf. unfold is_matching_fin, is_matching. rewrite (flags_covered P e Hf), Hi. cbn. apply andb_true_r. Qed.
-
-Lemma markE_off n x : e_pot x = false -> markE n x = x. Proof. unfold markE. intros ->. reflexivity. Qed.
-Lemma markE_on n x : e_pot x = true -> markE n x = mark n x. Proof. unfold markE. intros ->. reflexivity. Qed.
-
-Lemma step_elem f P n v e :
-  okE f P e -> passed P n = false ->
-  let e' := markE n (stepE n v e) in
-  stat e' = stat e /\ e_cur e' = false /\ e_pot e' = liveL f (P ++ [(n, v)]) e /\ e_pot (stepE n v e) = e_pot e' /\ e_ign e' = false /\
-  (e_pot e' = true -> flags_ok (P ++ [(n, v)]) e' = true /\ e_fin e' = false).
+Lemma covered_lacks P it e :
+  coveredL P e = true -> fresh P it = true -> is_param it = true -> e_ign e = false -> acceptsL it e = false.
 Proof.
-  intros [Hi [Hp [Hc Hl]]] Hn. cbn zeta. rewrite live_snoc.
+  intros Hc Hf Hp Hi. unfold coveredL in Hc. apply andb_true_iff in Hc. destruct Hc as [Hc _].
+  destruct it as [n v|n buf|a]; cbn in *; [|  |discriminate].
+  - apply negb_true_iff in Hf. apply (covered_lacks_in P e n v Hc Hf Hi).
+  - apply negb_true_iff in Hf. apply (covered_lacks_out P e n Hc Hf Hi).
+Qed.
+
+Lemma markE_off it x : e_pot x = false -> markE it x = x. Proof. unfold markE. intros ->. reflexivity. Qed.
+Lemma markE_on it x : e_pot x = true -> markE it x = markL it x. Proof. unfold markE. intros ->. reflexivity. Qed.
+Lemma fin_markL it e : e_fin (markL it e) = e_fin e. Proof. destruct it; reflexivity. Qed.
+Lemma pot_markL it e : e_pot (markL it e) = e_pot e. Proof. destruct it; reflexivity. Qed.
+Lemma cur_markL it e : e_cur (markL it e) = e_cur e. Proof. destruct it; reflexivity. Qed.
+Lemma ign_markL it e : e_ign (markL it e) = e_ign e. Proof. destruct it; reflexivity. Qed.
+
+Lemma step_elem f P it e :
+  okE f P e -> fresh P it = true -> is_param it = true ->
+  let e' := markE it (stepE it e) in
+  stat e' = stat e /\ e_cur e' = false /\ e_pot e' = liveL f (P ++ [it]) e /\ e_pot (stepE it e) = e_pot e' /\ e_ign e' = false /\
+  (e_pot e' = true -> flags_ok (P ++ [it]) e' = true /\ e_fin e' = false).
+Proof.
+  intros [Hi [Hp [Hc Hl]]] Hn Hpar. cbn zeta. rewrite live_snoc.
   destruct (e_cur e) eqn:Ecur.
   - destruct (Hc eq_refl) as [L [F [Fi C]]].
     assert (Epot : e_pot e = false). { destruct (e_pot e) eqn:E; [|reflexivity]. destruct (Hp eq_refl) as [X _]. discriminate X. }
-    assert (S : stepE n v e = set_cur (reset_e e) false).
-    { unfold stepE. rewrite Ecur. cbn. rewrite Epot. cbn. rewrite Epot. reflexivity. }
+    assert (S : stepE it e = set_cur (reset_e e) false).
+    { unfold stepE. rewrite Ecur. change (e_pot (set_cur (reset_e e) false)) with (e_pot e). rewrite Epot. cbn [andb].
+      change (e_pot (set_cur (reset_e e) false)) with (e_pot e). rewrite Epot. reflexivity. }
     rewrite S. rewrite markE_off by exact Epot.
-    rewrite (covered_lacks P e n v C Hn Hi), andb_false_r.
+    rewrite (covered_lacks P it e C Hn Hpar Hi), andb_false_r.
     split; [apply stat_reset|]. split; [reflexivity|]. split; [exact Epot|]. split; [reflexivity|]. split; [exact Hi|].
     intro X. exfalso. change (e_pot e = true) in X. congruence.
   - destruct (e_pot e) eqn:Epot.
     + destruct (Hp eq_refl) as [_ [L [F Fi]]].
       destruct (coveredL P e) eqn:C.
-      * assert (S : stepE n v e = drop (reset_e e)).
+      * assert (S : stepE it e = drop (reset_e e)).
         { unfold stepE. rewrite Ecur. cbn zeta. rewrite Epot, (is_matching_fin_ok P e Hi F), C. reflexivity. }
         rewrite S. rewrite markE_off by reflexivity.
-        rewrite (covered_lacks P e n v C Hn Hi), andb_false_r.
+        rewrite (covered_lacks P it e C Hn Hpar Hi), andb_false_r.
         split; [apply stat_reset|]. split; [exact Ecur|]. split; [reflexivity|]. split; [reflexivity|]. split; [exact Hi|]. discriminate.
-      * destruct (has_input n v e) eqn:Hin.
-        -- assert (S : stepE n v e = e).
-           { unfold stepE. rewrite Ecur. cbn zeta. rewrite Epot, (is_matching_fin_ok P e Hi F), C. cbn. rewrite Epot, Hin. reflexivity. }
+      * destruct (acceptsL it e) eqn:Hin.
+        -- assert (S : stepE it e = e).
+           { unfold stepE. rewrite Ecur. cbn zeta. rewrite Epot, (is_matching_fin_ok P e Hi F), C. cbn [andb]. rewrite Epot, Hin. reflexivity. }
            rewrite S. rewrite markE_on by exact Epot. rewrite L. cbn [andb].
-           split; [apply stat_mark|]. split; [exact Ecur|]. split; [exact Epot|]. split; [reflexivity|]. split; [exact Hi|].
-           intros _. split; [apply flags_ok_mark; exact F|exact Fi].
-        -- assert (S : stepE n v e = drop e).
-           { unfold stepE. rewrite Ecur. cbn zeta. rewrite Epot, (is_matching_fin_ok P e Hi F), C. cbn. rewrite Epot, Hin. reflexivity. }
+           split; [apply stat_markL|]. split; [rewrite cur_markL; exact Ecur|]. split; [rewrite pot_markL; exact Epot|].
+           split; [rewrite pot_markL; reflexivity|]. split; [rewrite ign_markL; exact Hi|].
+           intros _. split; [apply flags_ok_markL; exact F|rewrite fin_markL; exact Fi].
+        -- assert (S : stepE it e = drop e).
+           { unfold stepE. rewrite Ecur. cbn zeta. rewrite Epot, (is_matching_fin_ok P e Hi F), C. cbn [andb]. rewrite Epot, Hin. reflexivity. }
            rewrite S. rewrite markE_off by reflexivity. rewrite L. cbn [andb].
            split; [reflexivity|]. split; [exact Ecur|]. split; [reflexivity|]. split; [reflexivity|]. split; [exact Hi|]. discriminate.
-    + assert (S : stepE n v e = e). { unfold stepE. rewrite Ecur. cbn zeta. rewrite Epot. cbn. rewrite Epot. reflexivity. }
+    + assert (S : stepE it e = e). { unfold stepE. rewrite Ecur. cbn zeta. rewrite Epot. cbn [andb]. rewrite Epot. reflexivity. }
       rewrite S. rewrite markE_off by exact Epot.
       assert (L : liveL f P e = false).
       { destruct (liveL f P e) eqn:E; [|reflexivity]. specialize (Hl eq_refl). discriminate Hl. }
@@ -217,7 +344,7 @@ Proof.
       split; [reflexivity|]. split; [exact Ecur|]. split; [exact Epot|]. split; [reflexivity|]. split; [exact Hi|]. rewrite Epot. discriminate.
 Qed.
 
-(* take_first: what removeFirst... does *)
+(* take_first: what removeFirst... does; first_pot: the member it finds *)
 Lemma take_first_none pred g es : take_first pred g es = None <-> forall e, In e es -> e_pot e && pred e = false.
 Proof.
   induction es as [|e r IH]; cbn; [tauto|]. destruct (e_pot e && pred e) eqn:E.
@@ -237,93 +364,312 @@ Proof.
     destruct (IH l eq_refl) as [l1 [x [l2 [A [B [C D]]]]]]. exists (e :: l1), x, l2. subst. cbn. repeat split; auto.
     intros y [Hy|Hy]; [subst; exact E|]. apply D. exact Hy.
 Qed.
+Lemma first_pot_some pred l1 e l2 :
+  e_pot e && pred e = true -> (forall x, In x l1 -> e_pot x && pred x = false) -> first_pot pred (l1 ++ e :: l2) = Some e.
+Proof.
+  intros He H. unfold first_pot. induction l1 as [|x r IH]; cbn.
+  - rewrite He. reflexivity.
+  - rewrite (H x (or_introl eq_refl)). apply IH. intros y Hy. apply H. right. exact Hy.
+Qed.
+Lemma first_pot_none pred es : (forall e, In e es -> e_pot e && pred e = false) -> first_pot pred es = None.
+Proof.
+  intro H. unfold first_pot. induction es as [|x r IH]; cbn; [reflexivity|]. rewrite (H x (or_introl eq_refl)). apply IH.
+  intros y Hy. apply H. right. exact Hy.
+Qed.
 
-(* the state of the call after the parameters P *)
-Definition curS (P : list (name * pv)) (es : list expn) (st : cstate) : Prop :=
-  (st = InProgress /\ (forall e, In e es -> e_cur e = false) /\ (forall e, In e es -> e_pot e = true -> coveredL P e = false) /\
+(* output buffers *)
+Definition filled (e : expn) (outs : list (name * list N)) : Prop :=
+  Forall (fun o => is_prefix (lookup_out (fst o) (ol e)) (snd o) = true) outs.
+Lemma is_prefix_app p q : is_prefix p (p ++ q) = true.
+Proof. apply is_prefix_spec. exists q. reflexivity. Qed.
+Lemma is_prefix_nil s : is_prefix [] s = true.
+Proof. apply is_prefix_spec. exists s. reflexivity. Qed.
+Lemma copy_outputs_names e outs : map fst (copy_outputs e outs) = map fst outs.
+Proof. unfold copy_outputs. rewrite map_map. apply map_ext. intro o. destruct (find_oparam (fst o) (e_outs e)); reflexivity. Qed.
+Lemma copy_outputs_filled e outs : filled e (copy_outputs e outs).
+Proof.
+  unfold filled, copy_outputs. apply Forall_forall. intros o Ho. apply in_map_iff in Ho. destruct Ho as [o0 [Ho _]]. subst o.
+  unfold ol. rewrite find_oparam_lookup.
+  destruct (find_oparam (fst o0) (e_outs e)) as [q|] eqn:E; cbn [fst snd].
+  - rewrite E. unfold overwrite. apply is_prefix_app.
+  - rewrite E. apply is_prefix_nil.
+Qed.
+Lemma filled_stat e e' outs : stat e = stat e' -> filled e outs -> filled e' outs.
+Proof. intros H F. unfold filled in *. rewrite <- (stat_ol _ _ H). exact F. Qed.
+
+(* the state of the call after the items P *)
+Definition curS (P : list item) (es : list expn) (c : acall) : Prop :=
+  (c_state c = InProgress /\ (forall e, In e es -> e_cur e = false) /\ (forall e, In e es -> e_pot e = true -> coveredL P e = false) /\
    exists e, In e es /\ e_pot e = true)
-  \/ (st = Succeeded /\ exists l1 e l2, es = l1 ++ e :: l2 /\ e_cur e = true /\ (forall x, In x (l1 ++ l2) -> e_cur x = false) /\
-      forall x, In x l1 -> e_pot x = true -> coveredL P x = false).
-Definition Inv (f : name) (P : list (name * pv)) (es : list expn) (c : acall) : Prop :=
-  Forall (okE f P) es /\ c_name c = f /\ c_checked c = false /\ curS P es (c_state c).
+  \/ (c_state c = Succeeded /\ exists l1 e l2, es = l1 ++ e :: l2 /\ e_cur e = true /\ (forall x, In x (l1 ++ l2) -> e_cur x = false) /\
+      (forall x, In x l1 -> e_pot x = true -> coveredL P x = false) /\ filled e (c_outs c)).
+Definition Inv (f : name) (P : list item) (es : list expn) (c : acall) : Prop :=
+  Forall (okE f P) es /\ c_name c = f /\ c_checked c = false /\ map fst (c_outs c) = out_names P /\ curS P es c.
 
 (* completeCallWhenMatchIsFound re-establishes the invariant from a list without current match *)
 Lemma complete_inv f P es c :
   Forall (okE f P) es -> (forall e, In e es -> e_cur e = false) -> (exists e, In e es /\ e_pot e = true) ->
-  c_name c = f -> c_checked c = false -> c_state c = InProgress ->
-  let (es', c') := complete es c in Inv f P es' c' /\ map stat es' = map stat es.
+  c_name c = f -> c_checked c = false -> c_state c = InProgress -> map fst (c_outs c) = out_names P ->
+  let (es', c') := complete es c in Inv f P es' c' /\ map stat es' = map stat es /\ c_order c' = c_order c.
 Proof.
-  intros Hok Hnc Hne Hn Hch Hst. unfold complete. destruct (take_first is_matching_fin (fun e => e) es) as [es'|] eqn:T.
+  intros Hok Hnc Hne Hn Hch Hst Hon. unfold complete.
+  assert (E : forall e, In e es -> okE f P e) by (apply Forall_forall; exact Hok).
+  assert (MF : forall e, In e es -> e_pot e = true -> is_matching_fin e = coveredL P e /\ is_matching e = coveredL P e).
+  { intros e He Hp. destruct (E e He) as [Hi [Hpp _]]. destruct (Hpp Hp) as [_ [_ [F _]]].
+    split; [apply (is_matching_fin_ok P e Hi F)|apply (flags_covered P e F)]. }
+  destruct (take_first is_matching_fin (fun e => e) es) as [es'|] eqn:T.
   - apply take_first_some in T. destruct T as [l1 [e [l2 [A [B [C D]]]]]]. subst es es'.
+    rewrite (first_pot_some is_matching_fin l1 e l2 C D).
     apply andb_true_iff in C. destruct C as [Cp Cm].
-    assert (He : okE f P e). { rewrite Forall_forall in Hok. apply Hok. apply in_or_app. right. left. reflexivity. }
-    destruct He as [Hi [Hp [Hc Hl]]]. destruct (Hp Cp) as [_ [L [F Fi]]]. rewrite (is_matching_fin_ok P e Hi F) in Cm.
-    split.
-    + split; [|split; [exact Hn|split; [exact Hch|]]].
-      * apply Forall_app. apply Forall_app in Hok. destruct Hok as [H1 H2]. split; [exact H1|]. inversion H2; subst.
-        constructor; [|assumption]. split; [exact Hi|]. cbn. split; [discriminate|]. split; [intros _; auto|]. intros _. reflexivity.
-      * right. cbn. split; [reflexivity|]. exists l1, (set_cur (drop e) true), l2. split; [reflexivity|]. split; [reflexivity|]. split.
-        -- intros x Hx. apply Hnc. apply in_app_or in Hx. apply in_or_app. destruct Hx; [left|right; right]; assumption.
-        -- intros x Hx Hpx. specialize (D x Hx). rewrite Hpx in D. cbn in D.
-           assert (Hox : okE f P x). { rewrite Forall_forall in Hok. apply Hok. apply in_or_app. left. exact Hx. }
-           destruct Hox as [Hix [Hpx' _]]. destruct (Hpx' Hpx) as [_ [_ [Fx _]]]. rewrite (is_matching_fin_ok P x Hix Fx) in D. exact D.
-    + rewrite !map_app. cbn. reflexivity.
-  - split; [|reflexivity]. split; [exact Hok|]. split; [exact Hn|]. split; [exact Hch|]. left. rewrite Hst. split; [reflexivity|].
+    assert (Hin : In e (l1 ++ e :: l2)) by (apply in_or_app; right; left; reflexivity).
+    destruct (E e Hin) as [Hi [Hp [Hc Hl]]]. destruct (Hp Cp) as [_ [L [F Fi]]]. rewrite (is_matching_fin_ok P e Hi F) in Cm.
+    split; [|split; [rewrite !map_app; reflexivity|reflexivity]].
+    split; [|split; [exact Hn|split; [exact Hch|split; [cbn; rewrite copy_outputs_names; exact Hon|]]]].
+    + apply Forall_app. apply Forall_app in Hok. destruct Hok as [H1 H2]. split; [exact H1|]. inversion H2; subst.
+      constructor; [|assumption]. split; [exact Hi|]. cbn. split; [discriminate|]. split; [intros _; auto|]. intros _. reflexivity.
+    + right. cbn. split; [reflexivity|]. exists l1, (set_cur (drop e) true), l2. split; [reflexivity|]. split; [reflexivity|]. split; [|split].
+      * intros x Hx. apply Hnc. apply in_app_or in Hx. apply in_or_app. destruct Hx; [left|right; right]; assumption.
+      * intros x Hx Hpx. specialize (D x Hx). rewrite Hpx in D. cbn in D.
+        destruct (MF x (in_or_app _ _ _ (or_introl Hx)) Hpx) as [M1 _]. rewrite M1 in D. exact D.
+      * apply (filled_stat e); [reflexivity|]. apply copy_outputs_filled.
+  - pose proof (proj1 (take_first_none _ _ _) T) as TN.
+    rewrite (first_pot_none is_matching_fin es TN).
+    assert (TN2 : forall e, In e es -> e_pot e && is_matching e = false).
+    { intros e He. specialize (TN e He). destruct (e_pot e) eqn:Hp; [|reflexivity]. cbn in *.
+      destruct (MF e He Hp) as [M1 M2]. congruence. }
+    rewrite (first_pot_none is_matching es TN2).
+    split; [|split; reflexivity]. split; [exact Hok|]. split; [exact Hn|]. split; [exact Hch|]. split; [exact Hon|]. left. split; [exact Hst|].
     split; [exact Hnc|]. split; [|exact Hne]. intros e He Hpe.
-    pose proof (proj1 (take_first_none _ _ _) T e He) as X. rewrite Hpe in X. cbn in X.
-    assert (Hoe : okE f P e). { rewrite Forall_forall in Hok. apply Hok. exact He. }
-    destruct Hoe as [Hi [Hp _]]. destruct (Hp Hpe) as [_ [_ [F _]]]. rewrite (is_matching_fin_ok P e Hi F) in X. exact X.
+    specialize (TN e He). rewrite Hpe in TN. cbn in TN. destruct (MF e He Hpe) as [M1 _]. congruence.
 Qed.
 
-Lemma stat_markE n e : stat (markE n e) = stat e.
-Proof. unfold markE. destruct (e_pot e); [apply stat_mark|reflexivity]. Qed.
-Lemma stat_has_input_name n e e' : stat e = stat e' -> has_input_name n e = has_input_name n e'.
-Proof. intro H. rewrite !has_input_name_pl, (stat_pl _ _ H). reflexivity. Qed.
+Lemma existsb_stat (g : expn -> bool) (h : expn -> expn) es :
+  (forall e e', stat e = stat e' -> g e = g e') -> (forall e, stat (h e) = stat e) -> existsb g (map h es) = existsb g es.
+Proof. intros Hg Hh. rewrite existsb_map. apply existsb_ext'. intros e _. apply Hg. apply Hh. Qed.
 
-(* checkInputParameter on the whole list *)
-Lemma check_input_inv f P n v es c :
-  Inv f P es c -> passed P n = false ->
-  match check_input n v es c with
-  | inr fl => (forall e, In e es -> liveL f (P ++ [(n, v)]) e = false) /\
-              f_kind fl = (if existsb (fun e => relates f e && has_input_name n e) es then FParamValue f n else FParamName f n)
-  | inl (es', c') => Inv f (P ++ [(n, v)]) es' c' /\ map stat es' = map stat es /\ c_order c' = c_order c /\
-                     exists e, In e es /\ liveL f (P ++ [(n, v)]) e = true
-  end.
+(* checkInputParameter / checkOutputParameter on the whole list, after the call record was prepared *)
+Lemma param_core f P it es c1 :
+  Forall (okE f P) es -> fresh P it = true -> is_param it = true ->
+  c_name c1 = f -> c_checked c1 = false -> c_state c1 = InProgress -> map fst (c_outs c1) = out_names (P ++ [it]) ->
+  let es1 := keep_if (acceptsL it) (discard es) in
+  (forall e, stat (stepE it e) = stat e) /\
+  if pot_empty es1 then forall e, In e es -> liveL f (P ++ [it]) e = false
+  else let (es', c') := complete (for_pot (markL it) es1) c1 in
+       Inv f (P ++ [it]) es' c' /\ map stat es' = map stat es /\ c_order c' = c_order c1 /\
+       exists e, In e es /\ liveL f (P ++ [it]) e = true.
 Proof.
-  intros [Hok [Hn [Hch Hcs]]] Hp. unfold check_input. rewrite step_list.
+  intros Hok Hp Hpar Hn Hch Hst Hon. cbn zeta. rewrite step_list.
   assert (E : forall e, In e es -> okE f P e) by (apply Forall_forall; exact Hok).
-  assert (Hpot : existsb e_pot (map (stepE n v) es) = existsb (liveL f (P ++ [(n, v)])) es).
-  { rewrite existsb_map. apply existsb_ext'. intros e He. destruct (step_elem f P n v e (E e He) Hp) as [_ [_ [A [B _]]]]. congruence. }
-  unfold pot_empty. rewrite Hpot. destruct (existsb (liveL f (P ++ [(n, v)])) es) eqn:X; cbn [negb].
-  - (* candidates left *)
-    apply existsb_exists in X. destruct X as [e0 [He0 Hl0]].
+  split.
+  { intro e. unfold stepE.
+    set (e1 := if e_cur e then set_cur (reset_e e) false else e).
+    assert (S1 : stat e1 = stat e) by (unfold e1; destruct (e_cur e); [apply stat_reset|reflexivity]).
+    set (e2 := if e_pot e1 && is_matching_fin e1 then drop (reset_e e1) else e1).
+    assert (S2 : stat e2 = stat e) by (unfold e2; destruct (e_pot e1 && is_matching_fin e1); [rewrite <- S1; apply stat_reset|exact S1]).
+    destruct (e_pot e2 && negb (acceptsL it e2)); exact S2. }
+  assert (Hpot : existsb e_pot (map (stepE it) es) = existsb (liveL f (P ++ [it])) es).
+  { rewrite existsb_map. apply existsb_ext'. intros e He. destruct (step_elem f P it e (E e He) Hp Hpar) as [_ [_ [A [B _]]]]. congruence. }
+  unfold pot_empty. rewrite Hpot. destruct (existsb (liveL f (P ++ [it])) es) eqn:X; cbn [negb].
+  - apply existsb_exists in X. destruct X as [e0 [He0 Hl0]].
     rewrite mark_list, map_map.
-    pose proof (complete_inv f (P ++ [(n, v)]) (map (fun e => markE n (stepE n v e)) es) (set_state c InProgress)) as CI.
-    destruct (complete (map (fun e => markE n (stepE n v e)) es) (set_state c InProgress)) as [es' c'] eqn:Ec.
-    assert (CO : c_order c' = c_order c).
-    { unfold complete in Ec. destruct (take_first is_matching_fin (fun e => e) _); inversion Ec; reflexivity. }
-    destruct CI as [I S].
+    pose proof (complete_inv f (P ++ [it]) (map (fun e => markE it (stepE it e)) es) c1) as CI.
+    destruct (complete (map (fun e => markE it (stepE it e)) es) c1) as [es' c'] eqn:Ec.
+    destruct CI as [I [S CO]].
     + apply Forall_forall. intros x Hx. apply in_map_iff in Hx. destruct Hx as [e [Hx He]]. subst x.
-      destruct (step_elem f P n v e (E e He) Hp) as [S1 [S2 [S3 [_ [S5 S6]]]]].
+      destruct (step_elem f P it e (E e He) Hp Hpar) as [S1 [S2 [S3 [_ [S5 S6]]]]].
       split; [exact S5|]. split.
       * intro Hq. split; [exact S2|]. split; [rewrite (stat_live _ _ _ _ S1); congruence|]. apply S6. exact Hq.
       * split; [intro Hq; congruence|]. intro Hq. rewrite (stat_live _ _ _ _ S1) in Hq. rewrite S3, Hq. reflexivity.
     + intros x Hx. apply in_map_iff in Hx. destruct Hx as [e [Hx He]]. subst x.
-      destruct (step_elem f P n v e (E e He) Hp) as [_ [S2 _]]. exact S2.
-    + exists (markE n (stepE n v e0)). split; [apply in_map_iff; exists e0; auto|].
-      destruct (step_elem f P n v e0 (E e0 He0) Hp) as [_ [_ [S3 _]]]. congruence.
+      destruct (step_elem f P it e (E e He) Hp Hpar) as [_ [S2 _]]. exact S2.
+    + exists (markE it (stepE it e0)). split; [apply in_map_iff; exists e0; auto|].
+      destruct (step_elem f P it e0 (E e0 He0) Hp Hpar) as [_ [_ [S3 _]]]. congruence.
     + exact Hn.
     + exact Hch.
-    + reflexivity.
+    + exact Hst.
+    + exact Hon.
     + split; [exact I|]. split.
-      * rewrite S, map_map. apply map_ext_in. intros e He. destruct (step_elem f P n v e (E e He) Hp) as [S1 _]. exact S1.
+      * rewrite S, map_map. apply map_ext_in. intros e He. destruct (step_elem f P it e (E e He) Hp Hpar) as [S1 _]. exact S1.
       * split; [exact CO|]. exists e0. auto.
-  - (* no candidate left *)
-    split; [apply existsb_false; exact X|]. cbn. rewrite Hn.
-    assert (Y : existsb (fun e => relates f e && has_input_name n e) (map (stepE n v) es) = existsb (fun e => relates f e && has_input_name n e) es).
-    { rewrite existsb_map. apply existsb_ext'. intros e He. destruct (step_elem f P n v e (E e He) Hp) as [S1 _].
-      rewrite stat_markE in S1. rewrite (stat_relates f _ _ S1), (stat_has_input_name n _ _ S1). reflexivity. }
-    cbn in Y. rewrite Y. reflexivity.
+  - apply existsb_false. exact X.
+Qed.
+
+Definition fail_kind (f : name) (it : item) (es : list expn) : fkind :=
+  match it with
+  | IIn n _ => if existsb (fun e => relates f e && has_input_name n e) es then FParamValue f n else FParamName f n
+  | IOut n _ => if existsb (fun e => relates f e && has_output_name n e) es then FOutType f n else FOutName f n
+  | IObj _ => FObjectUnexpected f
+  end.
+
+Lemma Inv_okE f P es c : Inv f P es c -> Forall (okE f P) es. Proof. intros [H _]. exact H. Qed.
+
+Lemma with_item_param_inv f P it es c :
+  Inv f P es c -> fresh P it = true -> is_param it = true ->
+  match with_item it es c with
+  | inr fl => (forall e, In e es -> liveL f (P ++ [it]) e = false) /\ f_kind fl = fail_kind f it es
+  | inl (es', c') => Inv f (P ++ [it]) es' c' /\ map stat es' = map stat es /\ c_order c' = c_order c /\
+                     exists e, In e es /\ liveL f (P ++ [it]) e = true
+  end.
+Proof.
+  intros [Hok [Hn [Hch [Hon Hcs]]]] Hp Hpar.
+  destruct it as [n v|n buf|a]; [| |discriminate Hpar].
+  - cbn [with_item]. unfold check_input.
+    assert (HON : map fst (c_outs (set_state c InProgress)) = out_names (P ++ [IIn n v])).
+    { cbn. rewrite out_names_app, Hon. cbn. rewrite app_nil_r. reflexivity. }
+    pose proof (param_core f P (IIn n v) es (set_state c InProgress) Hok Hp Hpar Hn Hch eq_refl HON) as PC.
+    cbn zeta in PC. destruct PC as [ST PC].
+    change (keep_if (has_input n v) (discard es)) with (keep_if (acceptsL (IIn n v)) (discard es)).
+    change (for_pot (mark n)) with (for_pot (markL (IIn n v))).
+    destruct (pot_empty (keep_if (acceptsL (IIn n v)) (discard es))).
+    + split; [exact PC|]. cbn [f_kind history_related history c_name set_state fail_kind]. rewrite Hn. rewrite step_list.
+      rewrite (existsb_stat (fun e => relates f e && has_input_name n e) (stepE (IIn n v)) es); [reflexivity| |exact ST].
+      intros e e' H. rewrite (stat_relates f _ _ H), (stat_has_input_name n _ _ H). reflexivity.
+    + exact PC.
+  - cbn [with_item]. unfold check_output.
+    assert (HON : map fst (c_outs (set_state (set_couts c (c_outs c ++ [(n, buf)])) InProgress)) = out_names (P ++ [IOut n buf])).
+    { cbn. rewrite map_app, out_names_app, Hon. reflexivity. }
+    pose proof (param_core f P (IOut n buf) es (set_state (set_couts c (c_outs c ++ [(n, buf)])) InProgress) Hok Hp Hpar Hn Hch eq_refl HON) as PC.
+    cbn zeta in PC. destruct PC as [ST PC].
+    change (keep_if (has_output n) (discard es)) with (keep_if (acceptsL (IOut n buf)) (discard es)).
+    change (for_pot (mark_out n)) with (for_pot (markL (IOut n buf))).
+    destruct (pot_empty (keep_if (acceptsL (IOut n buf)) (discard es))).
+    + split; [exact PC|]. cbn [f_kind history_related history c_name set_state set_couts fail_kind]. rewrite Hn. rewrite step_list.
+      rewrite (existsb_stat (fun e => relates f e && has_output_name n e) (stepE (IOut n buf)) es); [reflexivity| |exact ST].
+      intros e e' H. rewrite (stat_relates f _ _ H), (stat_has_output_name n _ _ H). reflexivity.
+    + exact PC.
+Qed.
+
+(* ------------------------------------------------------------------ onObject *)
+(* per function either every expectation names an object or none does *)
+Definition unif (f : name) (es : list expn) : Prop :=
+  forall e e', In e es -> In e' es -> relates f e = true -> relates f e' = true -> specific e = specific e'.
+Definition objE (a : Z) (e : expn) : expn :=
+  let e1 := if e_pot e && negb (relates_obj a e) then drop e else e in
+  if e_pot e1 then pass_obj e1 else e1.
+Lemma obj_list a es : for_pot pass_obj (keep_if (relates_obj a) es) = map (objE a) es.
+Proof. unfold for_pot, keep_if. rewrite map_map. reflexivity. Qed.
+Lemma pass_obj_id e : e_pobj e = true -> pass_obj e = e.
+Proof. destruct e. cbn. intros ->. reflexivity. Qed.
+Lemma coveredL_obj P a e : coveredL (P ++ [IObj a]) e = pcoveredL P e.
+Proof.
+  unfold coveredL, pcoveredL. rewrite passed_obj_app. change (passed_obj [IObj a]) with true. rewrite orb_true_r, orb_true_r, andb_true_r.
+  f_equal; apply forallb_ext'; intros q _.
+  - rewrite passed_in_app. change (passed_in [IObj a] (fst q)) with false. apply orb_false_r.
+  - rewrite passed_out_app. change (passed_out [IObj a] (fst q)) with false. apply orb_false_r.
+Qed.
+Lemma coveredL_nonspecific P e : specific e = false -> coveredL P e = pcoveredL P e.
+Proof. intro H. unfold coveredL. rewrite H. cbn. apply andb_true_r. Qed.
+Lemma live_relates f P e : liveL f P e = true -> relates f e = true.
+Proof. unfold liveL. intro H. apply andb_true_iff in H. destruct H as [H _]. apply andb_true_iff in H. apply H. Qed.
+
+Lemma obj_elem f P a e :
+  okE f P e -> passed_obj P = false -> (e_cur e = true -> specific e = false) ->
+  let e' := objE a e in
+  stat e' = stat e /\ e_cur e' = e_cur e /\ e_pot e' = e_pot e && relates_obj a e /\ okE f (P ++ [IObj a]) e'.
+Proof.
+  intros [Hi [Hp [Hc Hl]]] Ho Hs. cbn zeta. unfold objE.
+  destruct (e_pot e) eqn:Epot.
+  - destruct (Hp eq_refl) as [Cu [L [F Fi]]]. destruct (relates_obj a e) eqn:Ro; cbn [andb negb].
+    + rewrite Epot. split; [reflexivity|]. split; [reflexivity|]. split; [exact Epot|].
+      split; [exact Hi|]. split; [|split].
+      * intros _. split; [exact Cu|]. split; [|split; [apply (flags_ok_markL P (IObj a) e F)|exact Fi]].
+        rewrite live_snoc. change (liveL f P (pass_obj e)) with (liveL f P e). rewrite L. exact Ro.
+      * intro X. change (e_cur e = true) in X. congruence.
+      * intros _. change (e_pot e || e_cur e = true). rewrite Epot. reflexivity.
+    + change (e_pot (drop e)) with false. cbn iota. split; [reflexivity|]. split; [reflexivity|]. split; [reflexivity|].
+      split; [exact Hi|]. split; [discriminate|]. split; [intro X; change (e_cur e = true) in X; congruence|].
+      rewrite live_snoc. change (liveL f P (drop e)) with (liveL f P e). change (acceptsL (IObj a) (drop e)) with (relates_obj a e).
+      rewrite Ro, andb_false_r. discriminate.
+  - cbn [andb]. cbn iota. rewrite Epot. split; [reflexivity|]. split; [reflexivity|]. split; [exact Epot|].
+    split; [exact Hi|]. split; [intro X; congruence|]. split.
+    + intro Cu. destruct (Hc Cu) as [L [F [Fi C]]]. specialize (Hs Cu).
+      assert (Ro : relates_obj a e = true). { unfold relates_obj. unfold specific in Hs. destruct (e_obj e); [discriminate|reflexivity]. }
+      assert (Pb : e_pobj e = true).
+      { unfold flags_ok in F. apply andb_true_iff in F. destruct F as [_ F]. apply eqb_prop in F. rewrite F, Hs. reflexivity. }
+      split; [rewrite live_snoc, L; exact Ro|]. split; [|split; [exact Fi|]].
+      * rewrite <- (pass_obj_id e Pb). apply (flags_ok_markL P (IObj a) e F).
+      * rewrite coveredL_obj. rewrite <- (coveredL_nonspecific P e Hs). exact C.
+    + rewrite live_snoc. intro X. apply andb_true_iff in X. destruct X as [X _]. rewrite Epot. apply (Hl X).
+Qed.
+
+Lemma Inv_cur_nonspecific f P es c e :
+  Inv f P es c -> passed_obj P = false -> In e es -> e_cur e = true -> specific e = false.
+Proof.
+  intros [Hok _] Ho He Cu. rewrite Forall_forall in Hok. destruct (Hok e He) as [_ [_ [Hc _]]]. destruct (Hc Cu) as [_ [_ [_ C]]].
+  unfold coveredL in C. apply andb_true_iff in C. destruct C as [_ C]. rewrite Ho, orb_false_r in C. apply negb_true_iff in C. exact C.
+Qed.
+
+Lemma on_object_inv f P a es c :
+  Inv f P es c -> passed_obj P = false -> unif f es ->
+  match on_object a es c with
+  | inr fl => (forall e, In e es -> liveL f (P ++ [IObj a]) e = false) /\ f_kind fl = FObjectUnexpected f
+  | inl (es', c') => Inv f (P ++ [IObj a]) es' c' /\ map stat es' = map stat es /\ c_order c' = c_order c /\
+                     exists e, In e es /\ liveL f (P ++ [IObj a]) e = true
+  end.
+Proof.
+  intros HI Ho Hu. pose proof HI as [Hok [Hn [Hch [Hon Hcs]]]].
+  assert (E : forall e, In e es -> okE f P e) by (apply Forall_forall; exact Hok).
+  assert (OE : forall e, In e es -> let e' := objE a e in
+               stat e' = stat e /\ e_cur e' = e_cur e /\ e_pot e' = e_pot e && relates_obj a e /\ okE f (P ++ [IObj a]) e').
+  { intros e He. apply obj_elem; [apply E; exact He|exact Ho|]. intro Cu. apply (Inv_cur_nonspecific f P es c e HI Ho He Cu). }
+  assert (HON : map fst (c_outs c) = out_names (P ++ [IObj a])).
+  { rewrite out_names_app, Hon. cbn. rewrite app_nil_r. reflexivity. }
+  assert (CurK : existsb e_cur (keep_if (relates_obj a) es) = existsb e_cur es).
+  { unfold keep_if. rewrite existsb_map. apply existsb_ext'. intros e _. destruct (e_pot e && negb (relates_obj a e)); reflexivity. }
+  assert (PotK : forall e, In e es -> e_pot (if e_pot e && negb (relates_obj a e) then drop e else e) = e_pot e && relates_obj a e).
+  { intros e _. destruct (e_pot e) eqn:X; [|cbn; exact X]. destruct (relates_obj a e); cbn; [exact X|reflexivity]. }
+  assert (SM : map stat (map (objE a) es) = map stat es).
+  { rewrite map_map. apply map_ext_in. intros e He. apply (OE e He). }
+  assert (OK' : Forall (okE f (P ++ [IObj a])) (map (objE a) es)).
+  { apply Forall_forall. intros x Hx. apply in_map_iff in Hx. destruct Hx as [e [Hx He]]. subst x. apply (OE e He). }
+  unfold on_object. rewrite CurK.
+  destruct Hcs as [[Hst [Hnc [Hcov [e0 [He0 Hp0]]]]]|[Hst [l1 [e [l2 [Hes [Hce [Hnc [Hl1 Hfil]]]]]]]]].
+  - (* no current match *)
+    assert (NC : existsb e_cur es = false) by (apply existsb_false; exact Hnc). rewrite NC. cbn [negb andb].
+    assert (PL : forall e, In e es -> e_pot e && relates_obj a e = liveL f (P ++ [IObj a]) e).
+    { intros e He. rewrite live_snoc. cbn [acceptsL]. destruct (E e He) as [_ [Hp [_ Hl]]].
+      destruct (e_pot e) eqn:Ep; cbn [andb].
+      - destruct (Hp eq_refl) as [_ [L _]]. rewrite L. reflexivity.
+      - destruct (liveL f P e) eqn:L; [|reflexivity]. specialize (Hl eq_refl). rewrite (Hnc e He) in Hl. discriminate Hl. }
+    assert (PE : existsb e_pot (keep_if (relates_obj a) es) = existsb (liveL f (P ++ [IObj a])) es).
+    { unfold keep_if. rewrite existsb_map. apply existsb_ext'. intros e He. rewrite (PotK e He). apply PL. exact He. }
+    unfold pot_empty. rewrite PE. destruct (existsb (liveL f (P ++ [IObj a])) es) eqn:X; cbn [negb].
+    + rewrite obj_list. apply existsb_exists in X. destruct X as [e1 [He1 Hl1]].
+      pose proof (complete_inv f (P ++ [IObj a]) (map (objE a) es) c OK') as CI.
+      destruct (complete (map (objE a) es) c) as [es' c'] eqn:Ec.
+      destruct CI as [I [S CO]].
+      * intros x Hx. apply in_map_iff in Hx. destruct Hx as [e [Hx He]]. subst x. destruct (OE e He) as [_ [Cu _]]. rewrite Cu. apply Hnc. exact He.
+      * exists (objE a e1). split; [apply in_map_iff; exists e1; auto|]. destruct (OE e1 He1) as [_ [_ [Pt _]]]. rewrite Pt, (PL e1 He1). exact Hl1.
+      * exact Hn.
+      * exact Hch.
+      * exact Hst.
+      * exact HON.
+      * split; [exact I|]. split; [rewrite S; exact SM|]. split; [exact CO|]. exists e1. auto.
+    + split; [apply existsb_false; exact X|]. cbn. rewrite Hn. reflexivity.
+  - (* a current match exists: it does not name an object, so no expectation of this function does *)
+    subst es.
+    assert (Hine : In e (l1 ++ e :: l2)) by (apply in_or_app; right; left; reflexivity).
+    assert (YC : existsb e_cur (l1 ++ e :: l2) = true) by (apply existsb_exists; exists e; auto). rewrite YC. cbn [negb andb].
+    rewrite obj_list.
+    assert (Se : specific e = false) by (apply (Inv_cur_nonspecific f P _ c e HI Ho Hine Hce)).
+    destruct (E e Hine) as [_ [Hpe [Hcc _]]]. destruct (Hcc Hce) as [Le [Fe [_ Ce]]].
+    assert (Pe : e_pot e = false). { destruct (e_pot e) eqn:X; [|reflexivity]. destruct (Hpe eq_refl) as [Y _]. congruence. }
+    assert (Oe : objE a e = e). { unfold objE. rewrite Pe. cbn [andb]. rewrite Pe. reflexivity. }
+    split; [|split; [exact SM|split; [reflexivity|]]].
+    + split; [exact OK'|]. split; [exact Hn|]. split; [exact Hch|]. split; [exact HON|]. right. split; [exact Hst|].
+      exists (map (objE a) l1), e, (map (objE a) l2). split; [rewrite map_app; cbn [map]; rewrite Oe; reflexivity|]. split; [exact Hce|]. split; [|split].
+      * intros x Hx. rewrite <- map_app in Hx. apply in_map_iff in Hx. destruct Hx as [y [Hx Hy]]. subst x.
+        assert (Hy' : In y (l1 ++ e :: l2)). { apply in_app_or in Hy. apply in_or_app. destruct Hy; [left|right; right]; assumption. }
+        destruct (OE y Hy') as [_ [Cu _]]. rewrite Cu. apply Hnc. exact Hy.
+      * intros x Hx Hpx. apply in_map_iff in Hx. destruct Hx as [y [Hx Hy]]. subst x.
+        assert (Hy' : In y (l1 ++ e :: l2)) by (apply in_or_app; left; exact Hy).
+        destruct (OE y Hy') as [Sy [_ [Pt _]]]. rewrite Pt in Hpx. apply andb_true_iff in Hpx. destruct Hpx as [Py _].
+        rewrite (stat_covered _ _ _ Sy), coveredL_obj.
+        destruct (E y Hy') as [_ [Hpy _]]. destruct (Hpy Py) as [_ [Ly _]].
+        assert (Sy2 : specific y = false). { rewrite (Hu y e Hy' Hine (live_relates _ _ _ Ly) (live_relates _ _ _ Le)). exact Se. }
+        rewrite <- (coveredL_nonspecific P y Sy2). apply Hl1; assumption.
+      * exact Hfil.
+    + exists e. split; [exact Hine|]. rewrite live_snoc, Le. cbn. unfold relates_obj. unfold specific in Se. destruct (e_obj e); [discriminate|reflexivity].
 Qed.
 
 Lemma fulfilled_for_stat f (g : expn -> expn) es : (forall e, stat (g e) = stat e) -> fulfilled_for f (map g es) = fulfilled_for f es.
@@ -334,7 +680,7 @@ Qed.
 
 (* the constructor and withName *)
 Lemma with_name_inv f es c :
-  (forall e, In e es -> e_ign e = false) -> c_name c = f -> c_checked c = false ->
+  (forall e, In e es -> e_ign e = false) -> c_name c = f -> c_checked c = false -> c_outs c = [] ->
   match with_name (create true es) c with
   | inr fl => (forall e, In e es -> can_match e && relates f e = false) /\
               f_kind fl = (let n := fulfilled_for f es in if 0 <? n then FAdditionalCall f (n + 1) else FUnexpectedCall f)
@@ -342,7 +688,7 @@ Lemma with_name_inv f es c :
                      exists e, In e es /\ can_match e && relates f e = true
   end.
 Proof.
-  intros Hi Hn Hch. unfold with_name. cbn [c_name set_state]. rewrite Hn.
+  intros Hi Hn Hch Hco. unfold with_name. cbn [c_name set_state]. rewrite Hn.
   set (g := fun e => let e1 := (fun e => let e := set_cur e false in if can_match e then set_pot (reset_e e) true else set_pot e false) e in
                      if e_pot e1 && negb (relates f e1) then drop e1 else e1).
   assert (G : keep_if (relates f) (create true es) = map g es).
@@ -355,7 +701,8 @@ Proof.
       change (relates f (set_pot (reset_e (set_cur e false)) true)) with (relates f e).
       destruct (relates f e) eqn:R; cbn [negb].
       + split; [apply (stat_reset (set_cur e false))|]. split; [reflexivity|]. split; [reflexivity|]. intros _. split; [|reflexivity].
-        unfold flags_ok. cbn. rewrite forallb_map. apply forallb_forall. intros q _. reflexivity.
+        unfold flags_ok. cbn. rewrite !forallb_map. rewrite orb_false_r, eqb_reflx, andb_true_r. apply andb_true_iff.
+        split; apply forallb_forall; intros q _; reflexivity.
       + split; [apply (stat_reset (set_cur e false))|]. split; [reflexivity|]. split; [reflexivity|]. discriminate.
     - change (e_pot (set_pot (set_cur e false) false)) with false. cbn [andb]. split; [reflexivity|]. split; [reflexivity|]. split; [reflexivity|]. discriminate. }
   assert (Hpot : existsb e_pot (map g es) = existsb (fun e => can_match e && relates f e) es).
@@ -364,9 +711,7 @@ Proof.
   - apply existsb_exists in X. destruct X as [e0 [He0 Hl0]].
     pose proof (complete_inv f [] (map g es) (set_state c InProgress)) as CI.
     destruct (complete (map g es) (set_state c InProgress)) as [es' c'] eqn:Ec.
-    assert (CO : c_order c' = c_order c).
-    { unfold complete in Ec. destruct (take_first is_matching_fin (fun e => e) _); inversion Ec; reflexivity. }
-    destruct CI as [I S].
+    destruct CI as [I [S CO]].
     + apply Forall_forall. intros x Hx. apply in_map_iff in Hx. destruct Hx as [e [Hx He]]. subst x.
       destruct (P1 e) as [S1 [S2 [S3 S4]]]. split; [rewrite (stat_ign _ _ S1); apply Hi; exact He|]. split.
       * intro Hq. split; [exact S2|]. split; [|apply S4; exact Hq]. unfold liveL. rewrite (stat_can_match _ _ S1), (stat_relates f _ _ S1).
@@ -378,6 +723,7 @@ Proof.
     + exact Hn.
     + exact Hch.
     + reflexivity.
+    + cbn. rewrite Hco. reflexivity.
     + split; [exact I|]. split; [|split; [exact CO|exists e0; auto]]. rewrite S, map_map. apply map_ext. intro e. apply P1.
   - split; [apply existsb_false; exact X|]. cbn.
     assert (Y : fulfilled_for f (map g es) = fulfilled_for f es) by (apply fulfilled_for_stat; intro e; apply P1).
@@ -385,12 +731,18 @@ Proof.
 Qed.
 
 (* ------------------------------------------------------------------ abstraction to the reference semantics M *)
+Definition sx_of (e : expn) : sexp :=
+  {| sx_n := e_exp e; sx_f := e_name e; sx_ps := pl e; sx_ret := e_ret e; sx_obj := e_obj e; sx_outs := ol e |}.
 Definition abs (e : expn) : mexp :=
-  {| x_e := (e_exp e, e_name e, pl e, e_ret e); x_left := e_exp e - e_act e; x_done := e_act e;
-     x_lo := e_lo e; x_hi := e_hi e; x_ooo := e_ooo e |}.
+  {| x_e := sx_of e; x_left := e_exp e - e_act e; x_done := e_act e; x_lo := e_lo e; x_hi := e_hi e; x_ooo := e_ooo e |}.
+Lemma sx_of_stat e e' : stat e = stat e' -> sx_of e = sx_of e'.
+Proof.
+  intro H. unfold sx_of. rewrite (stat_name _ _ H), (stat_pl _ _ H), (stat_ol _ _ H), (stat_ret _ _ H), (stat_obj _ _ H).
+  destruct (stat_cnt _ _ H) as [_ B]. rewrite B. reflexivity.
+Qed.
 Lemma abs_stat e e' : stat e = stat e' -> abs e = abs e'.
 Proof.
-  intro H. unfold abs. rewrite (stat_name _ _ H), (stat_pl _ _ H), (stat_ret _ _ H). destruct (stat_cnt _ _ H) as [A B].
+  intro H. unfold abs. rewrite (sx_of_stat _ _ H). destruct (stat_cnt _ _ H) as [A B].
   destruct (stat_ord _ _ H) as [C [D E]]. rewrite A, B, C, D, E. reflexivity.
 Qed.
 Lemma map_abs_stat es es' : map stat es = map stat es' -> map abs es = map abs es'.
@@ -404,14 +756,24 @@ Proof.
   - apply N.ltb_lt in E. apply N.ltb_lt. lia.
   - apply N.ltb_ge in E. apply N.ltb_ge. lia.
 Qed.
-Lemma agrees_abs P e : e_ign e = false -> agrees_upto (x_e (abs e)) P = agreesL P e.
+Lemma accepts_abs it e : e_ign e = false -> accepts (sx_of e) it = acceptsL it e.
 Proof.
-  intro H. unfold agrees_upto, agreesL. apply forallb_ext'. intros [n v] _. cbn [fst snd]. rewrite (has_input_noign n v e H). reflexivity.
+  intro H. destruct it as [n v|n buf|a]; cbn.
+  - symmetry. apply (has_input_noign n v e H).
+  - symmetry. apply (has_output_noign n e H).
+  - reflexivity.
+Qed.
+Lemma agrees_abs P e : e_ign e = false -> agrees_upto (x_e (abs e)) P = agreesL P e.
+Proof. intro H. unfold agrees_upto, agreesL. apply forallb_ext'. intros it _. apply accepts_abs. exact H. Qed.
+Lemma covers_abs P e : covers (sx_of e) P = coveredL P e.
+Proof.
+  unfold covers, coveredL, pcoveredL, passed_obj, specific. cbn [sx_ps sx_outs sx_obj sx_of]. f_equal.
+  destruct (e_obj e); [|reflexivity]. cbn. reflexivity.
 Qed.
 Lemma live_abs f P e : e_ign e = false -> x_open (abs e) && (sx_f (x_e (abs e)) =? f) && agrees_upto (x_e (abs e)) P = liveL f P e.
 Proof. intro H. rewrite open_abs, (agrees_abs P e H). reflexivity. Qed.
 Lemma matches_abs f P e : e_ign e = false -> matches (x_e (abs e)) f P = relates f e && agreesL P e && coveredL P e.
-Proof. intro H. unfold matches. fold (agrees_upto (x_e (abs e)) P). rewrite (agrees_abs P e H). reflexivity. Qed.
+Proof. intro H. unfold matches. rewrite (agrees_abs P e H). cbn [x_e abs]. rewrite covers_abs. reflexivity. Qed.
 
 Definition no_ign (es : list expn) : Prop := forall e, In e es -> e_ign e = false.
 Lemma no_ign_stat es es' : map stat es = map stat es' -> no_ign es -> no_ign es'.
@@ -422,44 +784,77 @@ Proof.
 Qed.
 Lemma Inv_no_ign f P es c : Inv f P es c -> no_ign es.
 Proof. intros [H _] e He. rewrite Forall_forall in H. apply (H e He). Qed.
-
 Lemma live_exists_abs f P es : no_ign es ->
   existsb (fun x => x_open x && (sx_f (x_e x) =? f) && agrees_upto (x_e x) P) (map abs es) = existsb (liveL f P) es.
 Proof. intro N. rewrite existsb_map. apply existsb_ext'. intros e He. apply live_abs. apply N. exact He. Qed.
 
-(* the parameters of the call, one after the other: L fails at the first parameter after which M has no candidate left *)
-Lemma with_params_inv f : forall ps P es c,
-  Inv f P es c -> nodup_names (map fst ps) = true -> (forall x, In x ps -> passed P (fst x) = false) ->
-  match with_params ps es c with
-  | inr fl => exists p, first_dead f (map abs es) P ps = Some p /\
-                        f_kind fl = (if existsb (fun e => relates f e && has_input_name p e) es then FParamValue f p else FParamName f p)
-  | inl (es', c') => first_dead f (map abs es) P ps = None /\ Inv f (P ++ ps) es' c' /\ map stat es' = map stat es /\ c_order c' = c_order c
+Lemma In_stat es es' : map stat es = map stat es' -> forall e', In e' es' -> exists e, In e es /\ stat e = stat e'.
+Proof.
+  revert es'. induction es as [|e r IH]; destruct es' as [|x r']; cbn; intros H y Hy; try discriminate; [destruct Hy|].
+  destruct (cons_eq_inv _ _ _ _ H) as [H1 H2]. destruct Hy as [Hy|Hy].
+  - subst y. exists e. auto.
+  - destruct (IH r' H2 y Hy) as [z [Hz Sz]]. exists z. auto.
+Qed.
+Lemma unif_stat f es es' : map stat es = map stat es' -> unif f es -> unif f es'.
+Proof.
+  intros H U x y Hx Hy Rx Ry. destruct (In_stat _ _ H x Hx) as [x0 [Hx0 Sx]]. destruct (In_stat _ _ H y Hy) as [y0 [Hy0 Sy]].
+  rewrite <- (stat_specific _ _ Sx), <- (stat_specific _ _ Sy). apply U; try assumption.
+  - rewrite (stat_relates f _ _ Sx). exact Rx.
+  - rewrite (stat_relates f _ _ Sy). exact Ry.
+Qed.
+Lemma fail_kind_stat f it es es' : map stat es = map stat es' -> fail_kind f it es = fail_kind f it es'.
+Proof.
+  intro H. assert (G : forall g : expn -> bool, (forall e e', stat e = stat e' -> g e = g e') -> existsb g es = existsb g es').
+  { intros g Hg. revert es' H. induction es as [|a l IHl]; destruct es' as [|b m]; cbn; intro H; try discriminate; [reflexivity|].
+    destruct (cons_eq_inv _ _ _ _ H) as [H1 H2]. rewrite (Hg _ _ H1), (IHl _ H2). reflexivity. }
+  destruct it as [n v|n buf|a]; cbn; [| |reflexivity].
+  - rewrite (G (fun e => relates f e && has_input_name n e)); [reflexivity|].
+    intros e e' S. rewrite (stat_relates f _ _ S), (stat_has_input_name n _ _ S). reflexivity.
+  - rewrite (G (fun e => relates f e && has_output_name n e)); [reflexivity|].
+    intros e e' S. rewrite (stat_relates f _ _ S), (stat_has_output_name n _ _ S). reflexivity.
+Qed.
+
+(* the items of the call, one after the other: L fails at the first item after which M has no candidate left *)
+Fixpoint fresh_list (P : list item) (its : list item) : bool :=
+  match its with [] => true | it :: r => fresh P it && fresh_list (P ++ [it]) r end.
+
+Lemma with_item_inv f P it es c :
+  Inv f P es c -> fresh P it = true -> unif f es ->
+  match with_item it es c with
+  | inr fl => (forall e, In e es -> liveL f (P ++ [it]) e = false) /\ f_kind fl = fail_kind f it es
+  | inl (es', c') => Inv f (P ++ [it]) es' c' /\ map stat es' = map stat es /\ c_order c' = c_order c /\
+                     exists e, In e es /\ liveL f (P ++ [it]) e = true
   end.
 Proof.
-  induction ps as [|[n v] r IH]; intros P es c HI Hnd Hfr.
+  intros HI Hf Hu. destruct (is_param it) eqn:Hp.
+  - apply with_item_param_inv; assumption.
+  - destruct it as [n v|n buf|a]; try discriminate Hp. cbn [with_item fail_kind]. cbn in Hf. apply negb_true_iff in Hf.
+    apply on_object_inv; assumption.
+Qed.
+
+Lemma with_items_inv f : forall its P es c,
+  Inv f P es c -> fresh_list P its = true -> unif f es ->
+  match with_items its es c with
+  | inr fl => exists it, first_dead f (map abs es) P its = Some it /\ f_kind fl = fail_kind f it es
+  | inl (es', c') => first_dead f (map abs es) P its = None /\ Inv f (P ++ its) es' c' /\ map stat es' = map stat es /\ c_order c' = c_order c
+  end.
+Proof.
+  induction its as [|it r IH]; intros P es c HI Hfr Hu.
   - cbn. rewrite app_nil_r. auto.
-  - cbn [with_params]. cbn in Hnd. apply andb_true_iff in Hnd. destruct Hnd as [Hn1 Hn2].
-    assert (Hp : passed P n = false) by (apply (Hfr (n, v)); left; reflexivity).
-    pose proof (check_input_inv f P n v es c HI Hp) as CI.
-    cbn [first_dead]. rewrite (live_exists_abs f (P ++ [(n, v)]) es (Inv_no_ign _ _ _ _ HI)).
-    destruct (check_input n v es c) as [[es1 c1]|fl].
+  - cbn [with_items]. cbn in Hfr. apply andb_true_iff in Hfr. destruct Hfr as [Hf1 Hf2].
+    pose proof (with_item_inv f P it es c HI Hf1 Hu) as CI.
+    cbn [first_dead]. rewrite (live_exists_abs f (P ++ [it]) es (Inv_no_ign _ _ _ _ HI)).
+    destruct (with_item it es c) as [[es1 c1]|fl].
     + destruct CI as [I1 [S1 [O1 [e0 [He0 Hl0]]]]].
-      assert (X : existsb (liveL f (P ++ [(n, v)])) es = true) by (apply existsb_exists; eauto). rewrite X.
-      specialize (IH (P ++ [(n, v)]) es1 c1 I1 Hn2).
-      assert (Hfr' : forall x, In x r -> passed (P ++ [(n, v)]) (fst x) = false).
-      { intros x Hx. rewrite passed_app. rewrite (Hfr x (or_intror Hx)). unfold passed. cbn. rewrite orb_false_r.
-        apply negb_true_iff in Hn1. rewrite existsb_false in Hn1. apply Hn1. apply in_map. exact Hx. }
-      specialize (IH Hfr'). rewrite (map_abs_stat _ _ S1) in IH.
-      destruct (with_params r es1 c1) as [[es2 c2]|fl].
+      assert (X : existsb (liveL f (P ++ [it])) es = true) by (apply existsb_exists; eauto). rewrite X.
+      assert (U1 : unif f es1) by (apply (unif_stat f es es1); [symmetry; exact S1|exact Hu]).
+      specialize (IH (P ++ [it]) es1 c1 I1 Hf2 U1). rewrite (map_abs_stat _ _ S1) in IH.
+      destruct (with_items r es1 c1) as [[es2 c2]|fl].
       * destruct IH as [A [B [C D]]]. rewrite <- app_assoc in B. cbn [app] in B.
         split; [exact A|]. split; [exact B|]. split; [rewrite C; exact S1|rewrite D; exact O1].
-      * destruct IH as [p [A B]]. exists p. split; [exact A|]. rewrite B.
-        assert (Y : existsb (fun e => relates f e && has_input_name p e) es1 = existsb (fun e => relates f e && has_input_name p e) es).
-        { clear - S1. revert es S1. induction es1 as [|a l IHl]; destruct es as [|b m]; cbn; intro H; try discriminate; [reflexivity|].
-          destruct (cons_eq_inv _ _ _ _ H) as [H1 H2]. rewrite (stat_relates f _ _ H1), (stat_has_input_name p _ _ H1), (IHl _ H2). reflexivity. }
-        rewrite Y. reflexivity.
-    + destruct CI as [A B]. assert (X : existsb (liveL f (P ++ [(n, v)])) es = false) by (apply existsb_false; exact A).
-      rewrite X. exists n. cbn [fst]. auto.
+      * destruct IH as [p [A B]]. exists p. split; [exact A|]. rewrite B. apply fail_kind_stat. exact S1.
+    + destruct CI as [A B]. assert (X : existsb (liveL f (P ++ [it])) es = false) by (apply existsb_false; exact A).
+      rewrite X. exists it. auto.
 Qed.
 
 (* ------------------------------------------------------------------ finishing the call (MockCheckedActualCall::checkExpectations) *)
@@ -473,7 +868,7 @@ Proof.
 Qed.
 Lemma consume_app f P o l1 y l2 :
   (forall x, In x l1 -> x_open x && matches (x_e x) f P = false) -> x_open y && matches (x_e y) f P = true ->
-  consume f P o (l1 ++ y :: l2) = Some (l1 ++ upd_m o y :: l2, sx_ret (x_e y)).
+  consume f P o (l1 ++ y :: l2) = Some (l1 ++ upd_m o y :: l2, x_e y).
 Proof.
   intros H Hy. induction l1 as [|x r IH]; cbn.
   - rewrite Hy. reflexivity.
@@ -495,35 +890,51 @@ Lemma live_matches f P e : e_ign e = false ->
   x_open (abs e) && matches (x_e (abs e)) f P = liveL f P e && coveredL P e.
 Proof. intro H. rewrite open_abs, (matches_abs f P e H). unfold liveL. rewrite !andb_assoc. reflexivity. Qed.
 
+Lemma filled_outs_ok e outs : filled e outs -> outs_ok (map (fun n => lookup_out n (ol e)) (map fst outs)) (map snd outs) = true.
+Proof.
+  unfold outs_ok, filled. induction outs as [|o r IH]; intro H; [reflexivity|]. inversion H as [|? ? H1 H2]; subst. cbn. rewrite H1. apply IH. exact H2.
+Qed.
+Lemma nothing_outs_ok (l : list name) (bufs : list (list N)) : length l = length bufs -> outs_ok (map (fun _ => @nil N) l) bufs = true.
+Proof.
+  unfold outs_ok. revert bufs. induction l as [|n r IH]; destruct bufs as [|b bs]; cbn; intro H; try discriminate; [reflexivity|].
+  change (is_prefix [] b && list_eqb is_prefix (map (fun _ => @nil N) r) bs = true). rewrite is_prefix_nil. apply IH. lia.
+Qed.
+
 Lemma finish_inv f P es c :
   Inv f P es c -> Forall wfE es ->
   match check_call es c with
-  | inl (es', c') => exists v, consume f P (c_order c) (map abs es) = Some (map abs es', v) /\ cur_ret es' = v /\
+  | inl (es', c') => exists e, consume f P (c_order c) (map abs es) = Some (map abs es', e) /\ cur_ret es' = sx_ret e /\
+                               outs_ok (out_bytes e P) (map snd (c_outs c')) = true /\
                                c_state c' = Succeeded /\ c_checked c' = true /\ Forall wfE es'
-  | inr fl => consume f P (c_order c) (map abs es) = None /\ f_kind fl = FParamMissing f (N.of_nat (length (filter e_pot es))) /\
+  | inr fl => consume f P (c_order c) (map abs es) = None /\
+              f_kind fl = (if existsb (fun e => liveL f P e && negb (pcoveredL P e)) es
+                           then FParamMissing f (N.of_nat (length (filter e_pot es))) else FObjectMissing f) /\
               exists e, In e es /\ liveL f P e = true
   end.
 Proof.
-  intros [Hok [Hn [Hch Hcs]]] Hwf. assert (E : forall e, In e es -> okE f P e) by (apply Forall_forall; exact Hok).
+  intros [Hok [Hn [Hch [Hon Hcs]]]] Hwf. assert (E : forall e, In e es -> okE f P e) by (apply Forall_forall; exact Hok).
   unfold check_call. rewrite Hch. cbn [c_state set_checked c_order c_name].
-  destruct Hcs as [[Hst [Hnc [Hcov [e0 [He0 Hp0]]]]]|[Hst [l1 [e [l2 [Hes [Hce [Hnc Hl1]]]]]]]]; rewrite Hst.
+  destruct Hcs as [[Hst [Hnc [Hcov [e0 [He0 Hp0]]]]]|[Hst [l1 [e [l2 [Hes [Hce [Hnc [Hl1 Hfil]]]]]]]]]; rewrite Hst.
   - assert (A : existsb (fun e => e_pot e && is_matching_fin e) es = false).
     { apply existsb_false. intros x Hx. destruct (e_pot x) eqn:Px; [|reflexivity]. cbn.
       destruct (E x Hx) as [Hi [Hp _]]. destruct (Hp Px) as [_ [_ [F _]]]. rewrite (is_matching_fin_ok P x Hi F). apply Hcov; assumption. }
     rewrite A.
     assert (B : take_first is_matching (fun e => call_was_made (c_order c) (set_fin e true)) es = None).
     { apply take_first_none. intros x Hx. destruct (e_pot x) eqn:Px; [|reflexivity]. cbn.
-      destruct (E x Hx) as [Hi [Hp _]]. destruct (Hp Px) as [_ [_ [F _]]]. unfold is_matching. rewrite (flags_covered P x F). apply Hcov; assumption. }
+      destruct (E x Hx) as [Hi [Hp _]]. destruct (Hp Px) as [_ [_ [F _]]]. rewrite (flags_covered P x F). apply Hcov; assumption. }
     rewrite B.
-    assert (C : existsb (fun e => e_pot e && negb (params_matching e)) es = true).
-    { apply existsb_exists. exists e0. split; [exact He0|]. rewrite Hp0. cbn.
-      destruct (E e0 He0) as [Hi [Hp _]]. destruct (Hp Hp0) as [_ [_ [F _]]]. rewrite (flags_covered P e0 F), (Hcov e0 He0 Hp0). reflexivity. }
-    rewrite C. split; [|split].
-    + apply consume_none. intros x Hx. apply in_map_iff in Hx. destruct Hx as [y [Hy Hin]]. subst x.
+    assert (C : existsb (fun e => e_pot e && negb (params_matching e)) es = existsb (fun e => liveL f P e && negb (pcoveredL P e)) es).
+    { apply existsb_ext'. intros x Hx. destruct (E x Hx) as [Hi [Hp [_ Hl]]]. destruct (e_pot x) eqn:Px.
+      - destruct (Hp eq_refl) as [_ [L [F _]]]. rewrite L, (flags_pcovered P x F). reflexivity.
+      - destruct (liveL f P x) eqn:L; [|reflexivity]. specialize (Hl eq_refl). rewrite (Hnc x Hx) in Hl. discriminate Hl. }
+    rewrite C.
+    assert (CN : consume f P (c_order c) (map abs es) = None).
+    { apply consume_none. intros x Hx. apply in_map_iff in Hx. destruct Hx as [y [Hy Hin]]. subst x.
       destruct (E y Hin) as [Hi [Hp [_ Hl]]]. rewrite (live_matches f P y Hi).
-      destruct (liveL f P y) eqn:L; [|reflexivity]. cbn. specialize (Hl eq_refl). rewrite (Hnc y Hin), orb_false_r in Hl. apply Hcov; assumption.
-    + cbn. rewrite Hn. reflexivity.
-    + exists e0. split; [exact He0|]. destruct (E e0 He0) as [_ [Hp _]]. apply (Hp Hp0).
+      destruct (liveL f P y) eqn:L; [|reflexivity]. cbn. specialize (Hl eq_refl). rewrite (Hnc y Hin), orb_false_r in Hl. apply Hcov; assumption. }
+    assert (EX : exists e, In e es /\ liveL f P e = true).
+    { exists e0. split; [exact He0|]. destruct (E e0 He0) as [_ [Hp _]]. apply (Hp Hp0). }
+    destruct (existsb (fun e => liveL f P e && negb (pcoveredL P e)) es); (split; [exact CN|]; split; [cbn; rewrite Hn; reflexivity|exact EX]).
   - subst es. destruct (E e) as [Hi [Hp [Hc Hl]]]; [apply in_or_app; right; left; reflexivity|].
     destruct (Hc Hce) as [L [F [Fi C]]].
     assert (Pe : e_pot e = false). { destruct (e_pot e) eqn:X; [|reflexivity]. destruct (Hp eq_refl) as [Y _]. congruence. }
@@ -531,7 +942,7 @@ Proof.
     assert (FC : for_cur (call_was_made (c_order c)) (l1 ++ e :: l2) = l1 ++ call_was_made (c_order c) e :: l2).
     { unfold for_cur. rewrite map_app. cbn. rewrite Hce. fold (for_cur (call_was_made (c_order c)) l1). fold (for_cur (call_was_made (c_order c)) l2).
       rewrite !for_cur_id; [reflexivity| |]; intros x Hx; apply Hnc; apply in_or_app; [right|left]; exact Hx. }
-    rewrite FC. exists (e_ret e). split; [|split; [|split; [exact Hst|split; [reflexivity|]]]].
+    rewrite FC. exists (sx_of e). split; [|split; [|split; [|split; [exact Hst|split; [reflexivity|]]]]].
     + rewrite map_abs_for_pot_reset, !map_app. cbn [map]. rewrite (abs_cwm _ _ Cm).
       apply (consume_app f P (c_order c) (map abs l1) (abs e) (map abs l2)).
       * intros x Hx. apply in_map_iff in Hx. destruct Hx as [y [Hy Hin]]. subst x.
@@ -546,6 +957,7 @@ Proof.
       rewrite X by (intros x Hx; apply Hnc; apply in_or_app; left; exact Hx). cbn.
       change (e_pot (call_was_made (c_order c) e)) with (e_pot e). rewrite Pe.
       change (e_cur (call_was_made (c_order c) e)) with (e_cur e). rewrite Hce. reflexivity.
+    + cbn [c_outs set_checked]. unfold out_bytes. rewrite <- Hon. cbn [sx_outs sx_of]. apply filled_outs_ok. exact Hfil.
     + unfold for_pot. apply Forall_forall. intros x Hx. apply in_map_iff in Hx. destruct Hx as [y [Hy Hin]].
       assert (W : wfE y).
       { apply in_app_or in Hin. rewrite Forall_forall in Hwf. destruct Hin as [Hin|[Hin|Hin]].
